@@ -174,6 +174,59 @@ pub fn run(rep: &mut Report) {
             }
         }
     }
+    // ---- a second occurrence is refused wherever it stands: [X, Y, X] for every at-most-once kind X and every
+    // other kind Y allowed in the location (duplicate detection that only looks at neighbours misses it)
+    let mut triple_cells = 0u64;
+    for loc in rc::ALL_LOCS {
+        let kinds: Vec<(u8, &str)> = rc::PROP_TABLE.iter().map(|(id, name, _)| (*id, *name)).collect();
+        for (x, nx) in &kinds {
+            if !rc::prop_allowed(*x, loc) || rc::prop_may_repeat(*x, loc) {
+                continue;
+            }
+            for (y, ny) in &kinds {
+                if x == y || !rc::prop_allowed(*y, loc) {
+                    continue;
+                }
+                triple_cells += 1;
+                let vx = values(*x);
+                let mut ps = vec![Prop { id: *x, val: vx[0].clone() }, Prop { id: *y, val: values(*y)[0].clone() }, Prop { id: *x, val: vx[0].clone() }];
+                if (*x == 0x16 || *y == 0x16) && *x != 0x15 && *y != 0x15 && rc::prop_allowed(0x15, loc) {
+                    ps.insert(0, Prop { id: 0x15, val: PVal::Str(b"m".to_vec()) });
+                }
+                let ap = base(loc, ps);
+                let label = format!("{nx}, {ny}, {nx} in {loc:?}");
+                let r = guarded(|| {
+                    let b = matches!(bridge::build::<u16>(&ap), Built::Ok(_));
+                    let wire = rc::encode(&ap, 2);
+                    let parsed = match rc::frame_one(&wire) {
+                        rc::Framed::Frame { ty, flags, body, .. } => bridge::parse_body::<u16>(Ver::V5, ty, flags, &body).map(|r| r.is_ok()).unwrap_or(false),
+                        _ => false,
+                    };
+                    (b, parsed)
+                });
+                let mk = |rule: &str, detail: String| Violation {
+                    rule: rule.into(),
+                    sig: format!("{rule}|{nx}|{loc:?}"),
+                    detail: format!("cell [{label}]: {detail}"),
+                    config: "c18 placement table (separated duplicates)".into(),
+                    history: vec![json!(label), json!(crate::util::hex(&rc::encode(&ap, 2)))],
+                };
+                match r {
+                    Err(m) => viols.push(mk("c18.panic", format!("panic: {m}"))),
+                    Ok((b, parsed)) => {
+                        if b {
+                            viols.push(mk("c18.builder-separated-duplicate", format!("the builder accepts a second {nx} (the specification allows it at most once here) when another property stands between the two")));
+                        }
+                        if parsed {
+                            viols.push(mk("c18.parser-separated-duplicate", format!("the parser accepts a second {nx} (the specification allows it at most once here) when another property stands between the two")));
+                        }
+                    }
+                }
+            }
+        }
+    }
+    rep.count("c18.separated-duplicates", triple_cells);
+    rep.floor("c18.separated-duplicates", 400);
     rep.count("c18.ordered-pairs", pair_cells);
     rep.floor("c18.ordered-pairs", 1000);
     for v in viols {
@@ -182,12 +235,12 @@ pub fn run(rep: &mut Report) {
     for s in samples {
         rep.sample(s);
     }
-    rep.set_cov("evaluations", json!((cells + pair_cells) * 2));
-    rep.set_cov("distinct_nontrivial", json!(cells + pair_cells));
+    rep.set_cov("evaluations", json!((cells + pair_cells + triple_cells) * 2));
+    rep.set_cov("distinct_nontrivial", json!(cells + pair_cells + triple_cells));
     rep.set_cov("cells_spec_accept", json!(accept_cells));
     rep.set_cov("cells_spec_reject", json!(reject_cells));
     rep.set_cov("exhaustive", json!(true));
-    rep.set_cov("rule", json!("27 property kinds x the 14 property-carrying locations of MQTT v5.0 x occurrences {1,2} x {typical value, every boundary the specification singles out}; each cell evaluated on the builder path and on the parser path (reference-encoded packet); plus every ordered pair of distinct allowed kinds per location (order independence) and every disallowed kind before / behind a User Property; distinct_nontrivial = cells + ordered pairs"));
+    rep.set_cov("rule", json!("27 property kinds x the 14 property-carrying locations of MQTT v5.0 x occurrences {1,2} x {typical value, every boundary the specification singles out}; each cell evaluated on the builder path and on the parser path (reference-encoded packet); plus every ordered pair of distinct allowed kinds per location (order independence) and every disallowed kind before / behind a User Property; plus [X, Y, X] for every at-most-once kind X and every other allowed kind Y; distinct_nontrivial = cells + ordered pairs + triples"));
     rep.count("c18.cells-accept", accept_cells);
     rep.count("c18.cells-reject", reject_cells);
     rep.floor("c18.cells-accept", 100);
